@@ -9,7 +9,6 @@ package db
 import (
 	"errors"
 	"fmt"
-	"reflect"
 	"strings"
 
 	"github.com/alicebob/sqlittle/sql"
@@ -237,11 +236,11 @@ func (st *Schema) toIndexColumns(ci []sql.IndexedColumn) []IndexColumn {
 // add an index. This is a noop if an equivalent index already exists. Returns
 // whether the indexed got added.
 func (st *Schema) addIndex(pk bool, name string, cols []IndexColumn) bool {
-	if reflect.DeepEqual(st.PK, cols) {
+	if sameKey(st.PK, cols) {
 		return false
 	}
 	for _, ind := range st.Indexes {
-		if reflect.DeepEqual(ind.Columns, cols) {
+		if sameKey(ind.Columns, cols) {
 			if pk {
 				st.PrimaryKey = ind.Index
 			}
@@ -262,13 +261,42 @@ func (st *Schema) addIndex(pk bool, name string, cols []IndexColumn) bool {
 func (st *Schema) setPK(cols []IndexColumn) {
 	st.PK = cols
 	for i, ind := range st.Indexes {
-		if reflect.DeepEqual(ind.Columns, cols) {
+		if sameKey(ind.Columns, cols) {
+			// the table is that index: the key keeps the directions of the
+			// constraint which came first
+			st.PK = ind.Columns
 			st.Indexes = append(st.Indexes[:i], st.Indexes[i+1:]...)
 			if len(st.Indexes) == 0 {
 				st.Indexes = nil // to make test diffs easier
 			}
+			return
 		}
 	}
+}
+
+// Two UNIQUE or PRIMARY KEY constraints are the same key, and share a single
+// index, if they have the same columns with the same collations. The sort
+// order does not matter.
+func sameKey(a, b []IndexColumn) bool {
+	if len(a) != len(b) {
+		return false
+	}
+	for i := range a {
+		if !strings.EqualFold(a[i].Column, b[i].Column) || !sameCollate(a[i].Collate, b[i].Collate) {
+			return false
+		}
+	}
+	return true
+}
+
+func sameCollate(a, b string) bool {
+	if a == "" {
+		a = DefaultCollate
+	}
+	if b == "" {
+		b = DefaultCollate
+	}
+	return strings.EqualFold(a, b)
 }
 
 // Returns the index of the named column, or -1.
